@@ -245,11 +245,24 @@ Definition quoted_simple (s : str) : option str :=
   | [] => None
   end.
 
+Definition py_keywords : list str :=
+  [L "and"; L "as"; L "assert"; L "async"; L "await"; L "break"; L "class"; L "continue"; L "def"; L "del"; L "elif"; L "else"; L "except"; L "finally"; L "for"; L "from"; L "global"; L "if"; L "import"; L "in"; L "is"; L "lambda"; L "nonlocal"; L "not"; L "or"; L "pass"; L "raise"; L "return"; L "try"; L "while"; L "with"; L "yield"].
+
+(* identifiers and dotted names (other than the three constants): ast.literal_eval raises ValueError *)
+Definition is_bare_word (s : str) : bool :=
+  match s with
+  | c :: _ => (isalpha_c c || ascii_eqb c (ch 95))
+              && forallb (fun x => isalnum_c x || ascii_eqb x (ch 95)) s
+              && negb (existsb (str_eqb s) py_keywords)
+  | [] => false
+  end.
+
 Definition literal_eval_scalar (s0 : str) : outcome pyval :=
   let s := strip_by (fun c => ascii_eqb c sp || ascii_eqb c tabch) s0 in
   if str_eqb s (L "None") then Ok VNone
   else if str_eqb s (L "True") then Ok (VBool true)
   else if str_eqb s (L "False") then Ok (VBool false)
+  else if is_bare_word s then Err ValueError      (* a Name / Attribute node: malformed node or string *)
   else match quoted_simple s with
        | Some body => Ok (VStr body)
        | None =>
